@@ -191,7 +191,8 @@ Idempotent == [][IdempotentStep]_jvars
 JObs == [base |-> Obs,
          jobs |-> [ji \in JobIdx |-> [tok |-> jobTok[ji], state |-> jobRes[ji].state,
                                       processed |-> jobRes[ji].processed]]]
-JEmit == PrintT(<<"TRACE", ToJson([steps |-> hist, obs |-> Obs, jobs |-> JObs.jobs])>>)
+JEmit == PrintT(<<"TRACE", ToJson(IF TrackPre THEN [steps |-> hist, obs |-> Obs, jobs |-> JObs.jobs, pre |-> pre]
+                                                ELSE [steps |-> hist, obs |-> Obs, jobs |-> JObs.jobs])>>)
 JHeader == [base |-> Header, jobs |-> JobSeq]
 JEmitHeader == PrintT(<<"JHEADER", ToJson(JHeader)>>)
 =============================================================================
